@@ -70,6 +70,20 @@ func nativeReplay(path string) (bool, string) {
 	if err != nil {
 		return false, err.Error()
 	}
+	if len(rf.Sched) > 0 {
+		// thread harness: instrumented copies of the package's files follow the recorded schedule natively
+		prog, err := exec.Load(repoDir, rf.PkgRel, ov)
+		if err != nil {
+			return false, "load for instrumentation failed: " + err.Error()
+		}
+		inst, err := instrumentForSchedule(prog)
+		if err != nil {
+			return false, "instrumentation failed: " + err.Error()
+		}
+		for name, content := range inst {
+			ov[name] = content
+		}
+	}
 	work, err := os.MkdirTemp(filepath.Join(verifRoot, ".work"), "replay-")
 	if err != nil {
 		os.MkdirAll(filepath.Join(verifRoot, ".work"), 0o755)
